@@ -32,12 +32,25 @@ fn pk_bytes(k: u8) -> [u8; 32] {
     dalek(k).verifying_key().to_bytes()
 }
 
+/// A valid signature of `msg` by key `k` that differs from the deterministic one: RFC 8032
+/// signing with another nonce prefix.
+fn alt_signature(k: u8, msg: &[u8]) -> [u8; 64] {
+    use ed25519_dalek::hazmat::{raw_sign, ExpandedSecretKey};
+    let mut esk = ExpandedSecretKey::from(&seed(k));
+    esk.hash_prefix[0] ^= 0x5a;
+    raw_sign::<ed25519_dalek::Sha512>(&esk, msg, &dalek(k).verifying_key()).to_bytes()
+}
+
 #[derive(Clone, Debug, PartialEq, Eq)]
 pub enum Op {
     /// `sign(&SecretKey(seed k))`
     Sign(u8),
     /// `add_signature(pk(k), signature made out of band (dalek) over tx_hash)`
     AddSig(u8),
+    /// `add_signature(pk(k), a SECOND valid signature over tx_hash)`: same key and message, other
+    /// nonce (ed25519 admits many valid signatures per key and message; a hardware wallet or a
+    /// randomised signer yields one that differs from the one `sign` computes)
+    AddSigAlt(u8),
     /// `remove_signature(pk(k))`; key 2 never signs (always absent)
     Remove(u8),
 }
@@ -46,7 +59,7 @@ impl Op {
     fn name(&self) -> &'static str {
         match self {
             Op::Sign(_) => "sign",
-            Op::AddSig(_) => "add_signature",
+            Op::AddSig(_) | Op::AddSigAlt(_) => "add_signature",
             Op::Remove(_) => "remove_signature",
         }
     }
@@ -54,13 +67,14 @@ impl Op {
         match self {
             Op::Sign(k) => format!("sign(k{k})"),
             Op::AddSig(k) => format!("add_signature(pk(k{k}), valid signature)"),
+            Op::AddSigAlt(k) => format!("add_signature(pk(k{k}), second valid signature (other nonce))"),
             Op::Remove(k) => format!("remove_signature(pk(k{k}))"),
         }
     }
 }
 
 fn alphabet() -> Vec<Op> {
-    vec![Op::Sign(0), Op::Sign(1), Op::AddSig(0), Op::AddSig(1), Op::Remove(0), Op::Remove(1), Op::Remove(2)]
+    vec![Op::Sign(0), Op::Sign(1), Op::AddSig(0), Op::AddSig(1), Op::Remove(0), Op::Remove(1), Op::Remove(2), Op::AddSigAlt(0), Op::AddSigAlt(1)]
 }
 
 fn apply(bt: BuiltTransaction, op: &Op) -> Result<BuiltTransaction, String> {
@@ -68,6 +82,10 @@ fn apply(bt: BuiltTransaction, op: &Op) -> Result<BuiltTransaction, String> {
         Op::Sign(k) => bt.sign(&SecretKey::from(seed(*k))),
         Op::AddSig(k) => {
             let sig = dalek(*k).sign(&bt.tx_hash.0).to_bytes();
+            bt.add_signature(PublicKey::from(pk_bytes(*k)), sig)
+        }
+        Op::AddSigAlt(k) => {
+            let sig = alt_signature(*k, &bt.tx_hash.0);
             bt.add_signature(PublicKey::from(pk_bytes(*k)), sig)
         }
         Op::Remove(k) => bt.remove_signature(PublicKey::from(pk_bytes(*k))),
@@ -257,7 +275,7 @@ fn run_history(acc: &Acc, base: &Base, hist: &[Op]) -> Outcome {
                     acc.removals_that_removed.fetch_add(1, Ordering::Relaxed);
                 }
             }
-            if let (Some(Op::Sign(_) | Op::AddSig(_)), Some(n)) = (hist.last(), before_last) {
+            if let (Some(Op::Sign(_) | Op::AddSig(_) | Op::AddSigAlt(_)), Some(n)) = (hist.last(), before_last) {
                 if listed.len() == n {
                     acc.replacements.fetch_add(1, Ordering::Relaxed);
                 }
@@ -273,6 +291,13 @@ fn run_history(acc: &Acc, base: &Base, hist: &[Op]) -> Outcome {
 
 pub fn run(ctx: Ctx) -> ! {
     // pallas' public keys for the pool must be the dalek ones (the oracle signs with dalek).
+    for k in 0..2u8 {
+        let (a, b) = (dalek(k).sign(&[7u8; 32]).to_bytes(), alt_signature(k, &[7u8; 32]));
+        let ok = dalek(k).verifying_key().verify(&[7u8; 32], &ed25519_dalek::Signature::from_bytes(&b)).is_ok();
+        if a == b || !ok {
+            mc_core::report::machinery_failure("the second signature is not a distinct valid signature");
+        }
+    }
     for k in 0..3u8 {
         let p = SecretKey::from(seed(k)).public_key();
         if p.as_ref() != pk_bytes(k) {
@@ -334,6 +359,8 @@ pub fn run(ctx: Ctx) -> ! {
         ("removal of one of two signatures", vec![Op::Sign(0), Op::Sign(1), Op::Remove(0)]),
         ("signing twice with one key", vec![Op::Sign(0), Op::Sign(0)]),
         ("add_signature for a key that already signed", vec![Op::Sign(0), Op::AddSig(0)]),
+        ("add_signature replacing a signature by a different valid one", vec![Op::Sign(0), Op::AddSigAlt(0)]),
+        ("sign replacing an out-of-band signature", vec![Op::AddSigAlt(0), Op::Sign(0)]),
     ];
     let named_results: Vec<Value> = named
         .iter()
@@ -390,7 +417,7 @@ pub fn run(ctx: Ctx) -> ! {
         Level::ModelChecking,
         cov,
         &[
-            "key pool: two signing keys (sign and add_signature with a valid out-of-band signature) and one key that never signs (removal of an absent key)",
+            "key pool: two signing keys (sign, add_signature with the deterministic signature, add_signature with a second valid signature made with another nonce) and one key that never signs (removal of an absent key)",
             "two base transactions built by the real builder; witnesses read from tx_bytes with the independent CBOR reader",
             "add_signature is only called with valid signatures (an invalid one supplied by the caller is outside the statement)",
         ],
